@@ -164,7 +164,17 @@ func scenarioC03(r *Run) {
 		}
 		return true
 	}
+	// in one run of four every request is made at the same instant, with a seeded scheduling point at
+	// every lock operation: which target a request reaches must not depend on what is being negotiated next to it
+	// (not over DNS: there the scheduling points reproduce, within milliseconds, the multiplexer's
+	// early-first-frame race that is listed as a known finding under C02 - see DESIGN.md section 8)
+	if !CarrierIsDNS(carrier) && c.Chance(1, 4, "requests-together") {
+		cs.Together = true
+		r.YieldsOn("yield-seed")
+		r.Count("requests_made_together")
+	}
 	out := r.Drive(pol, goal, extra, 60*time.Second, 20*time.Minute)
+	r.YieldsOff()
 	if out == Aborted {
 		return
 	}
